@@ -1216,6 +1216,7 @@ func Call(thread *Thread, fn Value, args Tuple, kwargs []Tuple) (Value, error) {
 	}
 
 	thread.stack = append(thread.stack, fr) // push
+	vFrame(thread, 1)
 
 	fr.callable = c
 
@@ -1233,6 +1234,7 @@ func Call(thread *Thread, fn Value, args Tuple, kwargs []Tuple) (Value, error) {
 		*fr = frame{}
 
 		thread.stack = thread.stack[:len(thread.stack)-1] // pop
+		vFrame(thread, -1)
 	}()
 
 	result, err := c.CallInternal(thread, args, kwargs)
